@@ -17,7 +17,9 @@ META = {
         'map it can be applied to. R3 every data_type of dataele.xml, every inline code of a 1250 element and every '
         'DTP02 code that names a format is a type name IsValidDataType dispatches on. R4 the constant child indices '
         'used by the segment matchers (extracted from their AST with their segment-id guards) exist in every segment '
-        'node of every indexed map to which the guard applies.'),
+        'node of every indexed map to which the guard applies. R5 walker wiring: the repeat-limit tests report iff count > limit '
+        '(finite evaluation), counts below a loop are reset before the loop is counted, a skipped node is pending-missing iff required '
+        'and unseen, the search covers positions >= the current one, limits are parsed as the map declares them, counts restart at ISA/GS.'),
     'not_decided': 'acceptance of any particular document; position ordering, repeat limits and counter resets in the walker',
     'trusted_base': ['sa/xmlmodel.py', 'dispatch-label extraction from IsValidDataType'],
     'technique': 'static analysis: code<->data agreement over the shipped XML maps (index, code lists, literal paths, constant indices)',
@@ -276,9 +278,127 @@ def r4_matcher_indices(ctx):
                  '' if not probs else 'segment_if.is_match would raise IndexError: %s' % '; '.join(sorted(set(probs))))
 
 
+def r5_walker_wiring(ctx):
+    """counting / ordering atoms of the walker that every conformant document depends on"""
+    import itertools
+    MAXINT = 2147483647
+    # --- repeat limits: reported iff count > limit
+    for qual, cnt_path, lim_path, code in (('walk_tree._check_seg_usage', 'self.counter.get_count(seg_node.x12path)', 'seg_node.get_max_repeat()', '5'),
+                                           ('walk_tree._check_loop_usage', 'self.counter.get_count(loop_node.x12path)', 'loop_node.get_max_repeat()', '4')):
+        fn = ctx.func('map_walker', qual)
+        tests = [n for n in ast.walk(fn) if isinstance(n, ast.If) and 'get_max_repeat()' in norm(n.test, 200)]
+        if len(tests) != 1:
+            raise AnalysisError('%s: repeat-limit test not found' % qual)
+        t = tests[0]
+        bad = []
+        for c, m in itertools.product(range(0, 5), (1, 2, 3, MAXINT)):
+            funcs = {'self.counter.get_count': lambda p, c=c: c, 'seg_node.get_max_repeat': lambda m=m: m, 'loop_node.get_max_repeat': lambda m=m: m}
+            try:
+                got = bool(A.ev(t.test, {'seg_node.x12path': 'p', 'loop_node.x12path': 'p'}, funcs))
+            except A.NotClosed as e:
+                raise AnalysisError('%s: limit test not closed: %s' % (qual, e))
+            if got != (c > m):
+                bad.append('count=%d limit=%s: %s' % (c, m, 'reported' if got else 'accepted'))
+        codes = [A.const(c.args[0]) for c in A.calls_in(ast.Module(body=t.body, type_ignores=[])) if A.call_target(c) == ('errh', 'seg_error')]
+        ok = not bad and codes == [code]
+        yield Ob('map_walker:%s over-limit reported iff count > limit (code %s)' % (qual, code), ok, ctx.floc(fn, t),
+                 '' if ok else (bad[0] if bad else 'codes %s' % codes))
+    # --- loop repeat: children counts are reset before the loop's own count is incremented
+    fn = ctx.func('map_walker', 'walk_tree._check_loop_usage')
+    seq = [(A.call_target(c)[1], norm(c.args[0])) for c in A.calls_in(fn) if A.call_target(c)[0] == 'self.counter' and A.call_target(c)[1] in ('reset_to_node', 'increment')]
+    ok = seq == [('reset_to_node', 'loop_node.x12path'), ('increment', 'loop_node.x12path')]
+    yield Ob('map_walker:walk_tree._check_loop_usage resets the counts below the loop, then counts the loop', ok, ctx.floc(fn),
+             '' if ok else 'counter calls %s: counts of a previous instance would leak into the next one' % seq)
+    fn = ctx.func('map_walker', 'walk_tree._goto_seg_match')
+    order = []
+    for n in ast.walk(fn):
+        if isinstance(n, ast.Call):
+            r, m = A.call_target(n)
+            if (r, m) in (('self', '_check_loop_usage'), ('self.counter', 'increment'), ('self', '_flush_mandatory_segs')):
+                order.append((n.lineno, m, norm(n.args[0]) if n.args else ''))
+    order = [(m, a) for _, m, a in sorted(order)]
+    ok = order == [('_check_loop_usage', 'loop_node'), ('increment', 'first_child_node.x12path'), ('_flush_mandatory_segs', 'errh')]
+    yield Ob('map_walker:walk_tree._goto_seg_match counts the loop, then its first segment, then flushes pending errors', ok, ctx.floc(fn), '' if ok else 'order %s' % order)
+    # --- walk: matched plain segment is counted before its usage check; search covers positions >= current
+    fn = ctx.func('map_walker', 'walk_tree.walk')
+    comps = [n for n in ast.walk(fn) if isinstance(n, ast.ListComp) and 'sorted(node.pos_map)' in norm(n, 200)]
+    ok = False
+    if len(comps) == 1 and comps[0].generators[0].ifs:
+        cond = comps[0].generators[0].ifs[0]
+        var = path_of(comps[0].generators[0].target)
+        try:
+            ok = [bool(A.ev(cond, {var: a, 'node_pos': 20})) for a in (10, 20, 30)] == [False, True, True]
+        except A.NotClosed:
+            ok = False
+    yield Ob('map_walker:walk_tree.walk searches positions >= the current one (same position included)', ok, ctx.floc(fn),
+             '' if ok else 'position filter changed: repeats of the current segment or later siblings would not be found')
+    txt = ast.unparse(fn)
+    i1, i2, i3 = txt.find('self.counter.increment(child.x12path)'), txt.find('self._check_seg_usage(child'), txt.find('self._flush_mandatory_segs(errh, child.pos)')
+    ok = 0 <= i1 < i2 < i3
+    yield Ob('map_walker:walk_tree.walk counts a matched segment, checks its usage, then flushes pending errors', ok, ctx.floc(fn), '' if ok else 'statement order changed')
+    # mandatory-missing condition
+    conds = [n for n in ast.walk(fn) if isinstance(n, ast.If) and "child.usage == 'R'" in norm(n.test, 200) and 'get_count' in norm(n.test, 200)]
+    ok = len(conds) == 1
+    if ok:
+        bad = []
+        for u, c in itertools.product(('R', 'S', 'N'), (0, 1, 2)):
+            got = bool(A.ev(conds[0].test, {'child.usage': u, 'child.x12path': 'p'}, {'self.counter.get_count': lambda p, c=c: c}))
+            if got != (u == 'R' and c < 1):
+                bad.append((u, c, got))
+        ok = not bad
+    yield Ob('map_walker:walk_tree.walk a skipped segment is pending-missing iff required and not yet seen', ok, ctx.floc(fn), '' if ok else 'condition changed')
+    fn = ctx.func('map_walker', 'walk_tree._is_loop_match')
+    conds = [n for n in ast.walk(fn) if isinstance(n, ast.If) and "loop_node.usage == 'R'" in norm(n.test, 200)]
+    ok = len(conds) == 1
+    if ok:
+        bad = []
+        for u, c in itertools.product(('R', 'S', 'N'), (0, 1, 2)):
+            got = bool(A.ev(conds[0].test, {'loop_node.usage': u, 'loop_node.x12path': 'p'}, {'self.counter.get_count': lambda p, c=c: c}))
+            if got != (u == 'R' and c < 1):
+                bad.append((u, c, got))
+        ok = not bad
+    yield Ob('map_walker:walk_tree._is_loop_match a skipped loop is pending-missing iff required and not yet seen', ok, ctx.floc(fn), '' if ok else 'condition changed')
+    # flush: pending errors at the position just matched are kept, the others reported
+    fn = ctx.func('map_walker', 'walk_tree._flush_mandatory_segs')
+    t = [n for n in ast.walk(fn) if isinstance(n, ast.If) and 'seg_node.pos' in norm(n.test)]
+    ok = len(t) == 1 and [bool(A.ev(t[0].test, {'seg_node.pos': a, 'cur_pos': 20})) for a in (10, 20, 30)] == [True, False, True]
+    yield Ob('map_walker:walk_tree._flush_mandatory_segs reports pending errors of other positions only', ok, ctx.floc(fn), '' if ok else 'flush condition changed')
+    # --- limits as the map declares them
+    for cls, attr in (('segment_if', 'max_use'), ('loop_if', 'repeat')):
+        fn = ctx.func('map_if', cls + '.get_max_repeat')
+        ok = 'MAXINT' in ast.unparse(fn) and ('int(self.%s)' % attr) in ast.unparse(fn) and "'>1'" in ast.unparse(fn)
+        yield Ob('map_if:%s.get_max_repeat: absent or ">1" is unlimited, otherwise the declared integer' % cls, ok, ctx.floc(fn), '' if ok else 'limit parsing changed')
+    # --- the counter itself
+    fn = ctx.func('nodeCounter', 'NodeCounter.get_count')
+    ok = any(isinstance(n, ast.Return) and A.const(n.value) == 0 for n in ast.walk(fn))
+    yield Ob('nodeCounter:NodeCounter.get_count is 0 for an unseen path', ok, ctx.floc(fn), '' if ok else 'default changed')
+    fn = ctx.func('nodeCounter', 'NodeCounter.increment')
+    txt = ast.unparse(fn)
+    ok = 'self._dict[k] += 1' in txt and 'self._dict[k] = 1' in txt
+    yield Ob('nodeCounter:NodeCounter.increment counts from 1 in steps of 1', ok, ctx.floc(fn), '' if ok else 'increment changed')
+    fn = ctx.func('nodeCounter', 'NodeCounter.reset_to_node')
+    txt = ast.unparse(fn)
+    ok = 'parent.is_child_path(x.format())' in txt and 'del self._dict[k]' in txt
+    yield Ob('nodeCounter:NodeCounter.reset_to_node drops exactly the counts below the node', ok, ctx.floc(fn), '' if ok else 'reset changed')
+    fn = ctx.func('path', 'X12Path.is_child_path')
+    t = [n for n in ast.walk(fn) if isinstance(n, ast.If) and 'len(root)' in norm(n.test)]
+    ok = len(t) == 1 and [bool(A.ev(t[0].test, {'root': (0,) * a, 'child': (0,) * 3})) for a in (2, 3, 4)] == [False, True, True]
+    yield Ob('path:X12Path.is_child_path a path is not its own child', ok, ctx.floc(fn), '' if ok else 'length test changed: reset_to_node would delete the node\'s own count')
+    # --- x12n_document restarts the counts at every ISA / GS
+    fn = ctx.func('x12n_document', 'x12n_document')
+    calls = [(norm(c.args[0]), norm(c.args[1])) for c in A.calls_in(fn) if A.call_target(c) == ('walker', 'forceWalkCounterToLoopStart')]
+    ok = calls == [("'/ISA_LOOP'", "'/ISA_LOOP/ISA'"), ("'/ISA_LOOP/GS_LOOP'", "'/ISA_LOOP/GS_LOOP/GS'")]
+    yield Ob('x12n_document:x12n_document restarts loop counts at ISA and GS', ok, ctx.floc(fn), '' if ok else 'calls %s' % calls)
+    fn = ctx.func('map_walker', 'walk_tree.forceWalkCounterToLoopStart')
+    seq = [(A.call_target(c)[1], norm(c.args[0])) for c in A.calls_in(fn)]
+    ok = seq == [('reset_to_node', 'x12_path'), ('increment', 'x12_path'), ('increment', 'child_path')]
+    yield Ob('map_walker:walk_tree.forceWalkCounterToLoopStart resets below the loop and counts loop and first segment', ok, ctx.floc(fn), '' if ok else 'calls %s' % seq)
+
+
 RULES = [
     Rule('C02.R1', 'every index entry is selectable: whitelist, the map\'s own envelope code lists, BHT tuple', r1_selectable, floor=120),
     Rule('C02.R2', 'literal map paths in code resolve in every map they are applied to', r2_literal_paths, floor=30),
     Rule('C02.R3', 'recogniser dispatch covers every data type / format qualifier in the data', r3_dispatch_covers_data, floor=10),
     Rule('C02.R4', 'constant child indices of the segment matchers exist in every applicable segment node', r4_matcher_indices, floor=2000),
+    Rule('C02.R5', 'walker counting/ordering atoms: limits, resets, pending-missing conditions, position filter', r5_walker_wiring, floor=16),
 ]
